@@ -225,47 +225,14 @@ class C01(Check):
     def coq_case(self, case):
         # re-run to get the recorder (deterministic); cheap
         rec = self._last_rec(case)
-        I = rec.I
-        expr = case["expr"]
-        m = rec.m
-        try:
-            tree = ast.parse(expr, mode="eval")
-            parse = f"(Returns {MC.expr_to_coq(tree.body, I)})"
-        except BaseException:
-            parse = "Raises"
-        s = expr.strip()
-        jde = True
-        try:
-            jv = json.loads(s)
-            jsn = f"(Returns {cz(I.vid(jv))})"
-        except json.JSONDecodeError:
-            jsn = "Raises"
-        except BaseException:
-            jsn, jde = "Raises", False
-        try:
-            lit = f"(Returns {cz(I.vid(ast.literal_eval(s)))})"
-        except BaseException:
-            lit = "Raises"
-        try:
-            det = m._detect_pathway(expr).value
-        except BaseException:
-            det = "math"
-        surrogate = any(0xD800 <= ord(c) <= 0xDFFF for c in expr[:50])
-        env = ("(mkMenv " + " ".join([
-            cz(len(expr)), "false",
-            "None" if case["pathway"] is None else f"(Some {PW_COQ[case['pathway']]})",
-            PW_COQ[det], cbool(case["silent"]), "Raises" if surrogate else "(Returns tt)",
-            parse, jsn, cbool(jde), lit, "(Returns tt)"]) + ")")
-        caps = rec.caps
+        env = MC.menv_coq(rec, case["expr"], case["pathway"], case["silent"])
         seen, reg = set(), []
         for t in reversed(rec.tools):      # latest registration of a name wins
             if t.name in seen:
                 continue
             seen.add(t.name)
-            rc = getattr(t, "required_capabilities", set())
-            reg.append(f"(mkTool {cstring(t.name)} {czl(sorted(caps.index(c) for c in rc))})")
-        allowed = "None" if case["allowed"] is None else f"(Some {czl(sorted({a % len(caps) for a in case['allowed']}))})"
-        return f"({rec.oracle_coq()}, {clist(reg)}, {allowed}, {env})"
+            reg.append(MC.toolspec_coq(rec, t))
+        return f"({rec.oracle_coq()}, {clist(reg)}, {MC.allowed_coq(rec, case['allowed'])}, {env})"
 
     def _last_rec(self, case):
         key = json.dumps(case, sort_keys=True)
